@@ -484,7 +484,7 @@ def run(repo, chk):
             g = new_codegen(gns['CodeGen'])
             g.word_size = 2
             g.stack = gns['StackPoint']()
-            g.state_data, g.const_data, g.numbered_labels, g.string_labels, g.global_vars = {}, {}, {}, {}, {}
+            pass        # book-keeping tables come from the dataclass field factories (new_codegen)
             import collections
             g.local_vars = collections.ChainMap()
             g.env = _Obj()
@@ -544,7 +544,7 @@ def run(repo, chk):
     # one specialisation (label, queue entry) per distinct concrete signature; labels are distinct
     g = new_codegen(CG)
     from collections import deque
-    g.func_labels, g.func_queue, g.numbered_labels = {}, deque(), {}
+    pass        # book-keeping tables come from the dataclass field factories (new_codegen)
     CS, Ident = sym['ConcreteSignature'], astns['Ident']
     sigs = [CS(Ident('f'), (DT.INT,)), CS(Ident('f'), (DT.BYTE,)), CS(Ident('f'), (CAT(DT.INT, AM.RW),)), CS(Ident('f'), (CAT(DT.INT, AM.RC),)),
             CS(Ident('f'), (CAT(DT.INT, AM.R),)), CS(Ident.you('f'), (DT.INT,)), CS(Ident('g'), (DT.INT,)), CS(Ident('f'), ())]
@@ -618,7 +618,7 @@ def function_queue(repo, chk, gf, rule='C01.A1'):
     bad = None
     try:
         g = new_codegen(CG)
-        g.func_labels, g.func_queue, g.func_table, g.numbered_labels = {}, collections.deque(), {}, {}
+        pass        # book-keeping tables come from the dataclass field factories (new_codegen)
         g.env = _O()
         sigs = [CS(A.Ident.you('is_you'), ()), CS(A.Ident('f'), (DT.INT,)), CS(A.Ident('g'), ()), CS(A.Ident('f'), (DT.BYTE,))]
         late = CS(A.Ident('late'), ())
@@ -677,7 +677,7 @@ def entry_binding(repo, chk, gf, rule='C01.A1'):
         decl = _O()
         decl.ret_type, decl.params, decl.span = DT.EMPTY, params, None
         g.env.funcs = {A.Ident.you('is_you'): {(): decl}}
-        g.state_data, g.const_data, g.numbered_labels, g.func_labels = {}, {}, {}, {}
+        pass        # book-keeping tables come from the dataclass field factories (new_codegen)
         log = []
         g.label_for_func = lambda sig: log.append(('label_for_func', sig, len(g.func_labels)))
         g.make_funcs = lambda: log.append(('make_funcs',))
@@ -846,6 +846,11 @@ def _word_cells(repo, chk, gf):
             a0 = n.args[0]
             if attr in accessor_dest and recv != 'self' and not isinstance(a0, (ast.Name, ast.Attribute, ast.IfExp)):
                 continue        # dict.get(key) and the like
+            if attr == 'get' and recv != 'self':
+                rv = n.func.value
+                mod_ns = gf.module_ns()
+                if isinstance(rv, (ast.Dict, ast.DictComp)) or (isinstance(rv, ast.Name) and isinstance(mod_ns.get(rv.id), dict)):
+                    continue    # a lookup in a table, not an accessor load
             n_sites += 1
             ok = is_word_cell(a0, fn, par)
             chk.expect(ok, 'C01.R2', f'{name}::{src(n)[:70]}', f'destination `{src(a0)}` is not provably a word cell '
